@@ -98,6 +98,12 @@ func specStep(state any, in any, out any) (bool, any) {
 // specResult is what operation op must yield for the tree.
 func specResult(root *model.Node, op string) string {
 	f := model.Forest{root}
+	if treeHasInvalid(root) {
+		switch op {
+		case "dryrun", "mkdir", "verify", "mkdirfail", "verifyfail":
+			return c13Rejected
+		}
+	}
 	switch op {
 	case "text":
 		return model.Render(f, model.DefaultBranch)
@@ -301,6 +307,9 @@ func (t *liveTree) runOp(op, tmp string) string {
 		mkdirAll(j.Target + "/" + t.shape.Name)
 		before := j.Snap()
 		o := Guard(func() error { return gtree.MkdirFromRoot(t.root, gtree.WithTargetDir(j.Target)) })
+		if treeHasInvalid(t.shape) {
+			return rejectedAs(o, len(mon.Diff(before, j.Snap())) != 0, 0)
+		}
 		if o.Panic != nil {
 			return "PANIC"
 		}
@@ -315,6 +324,9 @@ func (t *liveTree) runOp(op, tmp string) string {
 		}
 		defer j.Remove()
 		o := Guard(func() error { return gtree.VerifyFromRoot(t.root, gtree.WithTargetDir(j.Target)) })
+		if treeHasInvalid(t.shape) {
+			return rejectedAs(o, false, 0)
+		}
 		if o.Panic != nil {
 			return "PANIC"
 		}
@@ -385,6 +397,9 @@ func (t *liveTree) runOp(op, tmp string) string {
 				return gtree.MkdirFromRoot(t.root, gtree.WithDryRun(), gtree.WithFileExtensions([]string{".gz"}))
 			})
 		})
+		if treeHasInvalid(t.shape) {
+			return rejectedAs(o, false, len(rep))
+		}
 		if o.Panic != nil || o.Err != nil {
 			return "ERR:" + errStr(o.Err) + fmt.Sprint(o.Panic)
 		}
@@ -399,6 +414,9 @@ func (t *liveTree) runOp(op, tmp string) string {
 		o := Guard(func() error {
 			return gtree.MkdirFromRoot(t.root, gtree.WithTargetDir(j.Target), gtree.WithFileExtensions([]string{".gz"}))
 		})
+		if treeHasInvalid(t.shape) {
+			return rejectedAs(o, len(mon.Diff(before, j.Snap())) != 0, 0)
+		}
 		if o.Panic != nil || o.Err != nil {
 			return "ERR:" + errStr(o.Err) + fmt.Sprint(o.Panic)
 		}
@@ -420,6 +438,9 @@ func (t *liveTree) runOp(op, tmp string) string {
 		o := Guard(func() error {
 			return gtree.VerifyFromRoot(t.root, gtree.WithTargetDir(j.Target), gtree.WithStrictVerify())
 		})
+		if treeHasInvalid(t.shape) {
+			return rejectedAs(o, false, 0)
+		}
 		if o.Panic != nil {
 			return "PANIC"
 		}
@@ -544,7 +565,44 @@ func runC13(c *Ctx) bool {
 }
 
 var c13Ops = []string{"text", "text.b3", "text.b6", "walk", "iter", "json", "walk.massive", "text.massive", "json.massive", "walkfail", "iterbreak", "textfail", "jsonfail", "dryrun", "mkdir", "verify", "mkdirfail", "verifyfail"}
-var c13Names = []string{"a", "b", "c", "x.gz", "d e", "日本"}
+var c13Names = []string{"a", "b", "c", "x.gz", "d e", "日本", "x/y"} // the last one is not a path element: mkdir, verify and dry run must reject the tree, whatever happened to it before
+
+const c13Rejected = "REJECTED: invalid name, nothing created or reported"
+
+func treeHasInvalid(n *model.Node) bool {
+	if n == nil {
+		return false
+	}
+	if strings.Contains(n.Name, "/") {
+		return true
+	}
+	for _, k := range n.Kids {
+		if treeHasInvalid(k) {
+			return true
+		}
+	}
+	return false
+}
+
+// rejectedAs canonicalises the outcome of a validating operation on a tree with an invalid name.
+func rejectedAs(o Outcome, changed bool, printed int) string {
+	switch {
+	case o.Panic != nil:
+		return "PANIC"
+	case o.Err == nil:
+		return "ACCEPTED a tree with an invalid name"
+	case errors.Is(o.Err, gtree.ErrExistPath):
+		return "ErrExistPath instead of the name error"
+	case changed:
+		return "rejected, but the filesystem changed"
+	case printed > 0:
+		return "rejected, but a report was printed"
+	}
+	if _, _, ok := parseVerifyErr(o.Err.Error()); ok {
+		return "a verify report instead of the name error: " + o.Err.Error()
+	}
+	return c13Rejected
+}
 
 func randHistory(r *gen.Rand, n, maxTrees int) []string {
 	var h []string
